@@ -4,37 +4,41 @@ from vlib import std, hbuild, coq, recipes, common
 
 PID = "C29"
 META = {
-    "text": "Theorems (Properties_C29.v, 18, all closed under the global context) about the Gallina transcription of "
-            "HttpHdrCc::parse / packInto / setValue, httpHeaderParseQuotedString, strListGetItem (HopModel) and "
-            "httpHeaderParseInt (TokModel), with the directive-name table, ids and special values regenerated from the "
-            "code. For ALL field values: the parse loop is a fold over the strListGetItem elements and never runs out of "
-            "fuel; numeric/quoted arguments are read from the element only although the C code passes a pointer into the "
-            "whole value (C29_argument_reads_are_local); the parsed object EQUALS an independent first-match "
-            "specification over the elements (C29_parse_exact: flags; numeric directives = first argument that is a "
-            "non-negative int that fits; max-stale = first occurrence, valueless form if its argument is not such an "
-            "int; private/no-cache = first (valid) quoted argument; unknown directives joined into `other`); an invalid, "
-            "negative or out-of-range numeric argument leaves max-age/s-maxage/min-fresh/stale-if-error absent "
-            "(C29_invalid_numeric_absent); the parsed object is well formed; packInto writes the present known "
-            "directives joined by ', ' and strListGetItem re-splits such text into exactly those elements; "
-            "parse(pack(parse v)) = parse v whenever parse succeeds and there is no unknown directive "
-            "(C29_pack_parse_roundtrip_partial). Quoted arguments: exact on plain text (C29_quoted_plain_exact_partial); "
-            "REFUTED at full strength (kept as known findings, witnesses replayed on the real code): "
-            "`private=\"a\\\"b\"` yields `a`, `\\\\` vanishes, and HTAB inside a quoted argument is rejected. "
-            "Tie: extracted model vs the real HttpHdrCc/HttpHeader/StrList/HttpHeaderTools compiled from the working "
-            "tree (UBSan), 0 disagreements; independent Python oracle (element split, first-match semantics, RFC "
-            "quoted-string, round trip incl. unknown directives) on every implementation answer.",
+    "text": "Theorems (Properties_C29.v, 14, all closed under the global context) about the Gallina transcription of "
+            "HttpHdrCc::parse / packInto / setValue, httpHeaderParseQuotedString, httpHeaderQuoteString, strListGetItem "
+            "(HopModel) and httpHeaderParseInt (TokModel), with the directive-name table, ids and special values "
+            "regenerated from the code. For ALL field values: the parse loop is a fold over the strListGetItem elements "
+            "and never runs out of fuel; numeric/quoted arguments are read from the element only although the C code "
+            "passes a pointer into the whole value (C29_argument_reads_are_local); the parsed object EQUALS an "
+            "independent first-match specification over the elements (C29_parse_exact: flags; numeric directives = first "
+            "argument that is a non-negative int that fits; max-stale = first occurrence, valueless form if its argument "
+            "is not such an int; private/no-cache = first (valid) quoted argument; unknown directives joined into "
+            "`other`); an invalid, negative or out-of-range numeric argument leaves max-age/s-maxage/min-fresh/"
+            "stale-if-error absent (C29_invalid_numeric_absent); for ALL arguments httpHeaderParseQuotedString is RFC 9110 "
+            "quoted-string decoding with quoted-pairs unescaped and HTAB accepted (C29_quoted_string_is_rfc, against a "
+            "character-at-a-time reference decoder; LWS folding and text after the closing quote are the two documented "
+            "leniencies), and what httpHeaderQuoteString writes reads back (C29_quote_then_unquote); the parsed object "
+            "is well formed; packInto writes the present known directives joined by ', ' (quoted texts re-quoted) and "
+            "strListGetItem re-splits such text into exactly those elements; parse(pack(parse v)) = parse v whenever "
+            "parse succeeds and there is no unknown directive (C29_pack_parse_roundtrip_partial; texts containing "
+            "DQUOTE/backslash included). Tie: extracted model vs the real HttpHdrCc/HttpHeader/StrList/HttpHeaderTools "
+            "compiled from the working tree (UBSan), 0 disagreements; independent Python oracle (element split, "
+            "first-match semantics, RFC quoted-string, round trip incl. unknown directives) on every implementation answer.",
     "note": "partial: the round-trip THEOREM excludes objects with unknown directives (`other` non-empty); for those "
             "the round trip rests on the correspondence run and the oracle (which checks parse(pack(parse v)) on the "
-            "real code for every generated value). Trusted: Coq kernel, extraction, gen/gen_ccnames.cc (names via "
-            "operator<<, ids and special values from HttpHdrCc.h), harness/h_cc.cc; CcModel.v is validated against "
-            "the code only on the generated cases. Interpretation: `max-stale=<invalid>` is treated as valueless "
-            "max-stale (the VALUE is absent, the directive is not), as the code documents; strtol's leniency (leading "
-            "white space, sign, trailing garbage) is part of the modelled contract. parse() returning false (no known "
-            "directive) means the object is discarded by HttpHeader::getCc, so the round trip is stated for "
-            "successful parses. String's 64 KB limit and the defined/undefined distinction of empty Strings are not "
-            "modelled.",
+            "real code for every generated value). The two former findings (quoted-pairs of DQUOTE/backslash mangled, "
+            "HTAB rejected) were repaired in /repo (c6c56f5); their reproducers are regression cases and the oracle "
+            "reports them as violations again if the repair is reverted. Trusted: Coq kernel, extraction, "
+            "gen/gen_ccnames.cc (names via operator<<, ids and special values from HttpHdrCc.h), harness/h_cc.cc; "
+            "CcModel.v is validated against the code only on the generated cases. Interpretation: `max-stale=<invalid>` "
+            "is treated as valueless max-stale (the VALUE is absent, the directive is not), as the code documents; "
+            "strtol's leniency (leading white space, sign, trailing garbage) is part of the modelled contract. parse() "
+            "returning false (no known directive) means the object is discarded by HttpHeader::getCc, so the round "
+            "trip is stated for successful parses. String's 64 KB limit and the defined/undefined distinction of empty "
+            "Strings are not modelled.",
     "technique": "Coq proof (fold invariants over the element list, locality lemmas for strtol / quoted-string reads past "
-                 "the element, scanner lemmas for joined text, vm_compute over the regenerated name table) + "
+                 "the element, refinement of the run-based quoted-string loop to a character-at-a-time RFC decoder, "
+                 "scanner lemmas for joined text, vm_compute over the regenerated name table) + "
                  "extracted-model differential correspondence + independent Python oracle on the implementation's answers",
 }
 
@@ -246,11 +250,11 @@ def has_htab(arg):
 
 
 def classify(args):
-    """which known deviation of httpHeaderParseQuotedString (if any) the consulted quoted arguments can trigger"""
+    """names the (repaired) defect class of httpHeaderParseQuotedString a deviation belongs to, for a readable signature"""
     if any(has_special_pair(a) for a in args):
-        return "oracle:quoted-pair-dquote-or-backslash"
+        return "oracle:qs-quoted-pair-mangled"
     if any(has_htab(a) for a in args):
-        return "oracle:htab-in-quoted-string"
+        return "oracle:qs-htab-rejected"
     return None
 
 
